@@ -198,6 +198,11 @@ func builtinJoin(i *Interpreter, args []Expr, env *Environment) (interface{}, er
 	}
 	strParts := make([]string, len(arr))
 	for idx, elem := range arr {
+		if elem == nil {
+			// null, as the VM's join and JSON print it - not Go's "<nil>"
+			strParts[idx] = "null"
+			continue
+		}
 		strParts[idx] = fmt.Sprintf("%v", elem)
 	}
 	return strings.Join(strParts, delim), nil
